@@ -93,13 +93,13 @@ Print Assumptions c10_no_leak_source_info.
    and Src is that subscriber's name for the topic; an {info} goes to 'me' topics only. *)
 Theorem c10_no_leak_emitted : forall s o g,
   reach s -> In g (s_net (fst (step s o))) -> In g (s_net s) \/ fresh_ok (fst (step s o)) g.
-Proof. intros s o g R. destruct (net_prov s R) as [Z _]. destruct (step_adds s o Z) as [A _]. exact (A g). Qed.
+Proof. exact step_emits_reach. Qed.
 Print Assumptions c10_no_leak_emitted.
 
 (* hence, over all histories: every content notification in flight in a reachable state was addressed like that
    in some reachable state *)
 Theorem c10_no_leak_in_flight : forall s, reach s -> Forall sent_ok (s_net s).
-Proof. intros s R. exact (proj2 (net_prov s R)). Qed.
+Proof. exact in_flight_reach. Qed.
 Print Assumptions c10_no_leak_in_flight.
 
 Theorem c10_info_only_to_me : forall s g,
